@@ -89,6 +89,56 @@ Theorem C47_buffer_count_bounded : forall max ops st,
   bexec (bufs_new max) ops = Some st -> N.of_nat (List.length (btab st)) <= max /\ bmax st = max.
 Proof. exact buffer_count_bounded. Qed.
 
+(* the buffer table of the code = the abstract table id -> data (ids consecutive, live from the
+   allocation to the first consume, at most max live), for EVERY history and EVERY limit max (32 for
+   ScryptoVmVersion V1_0/V1_1, 4 for V1_2): same outputs step by step, same panics *)
+Theorem C47_buffer_table_refines_spec : forall max ops,
+  brun (bufs_new max) ops = spec_run (spec_new max) ops.
+Proof. exact table_refines_spec. Qed.
+
+(* Buffer::new / id() / len(): the i64 handed to WASM carries id and len exactly *)
+Theorem C47_buffer_pack_roundtrip : forall id len, id <= U32_MAX -> len <= U32_MAX ->
+  buffer_id (buffer_pack id len) = id /\ buffer_len (buffer_pack id len) = len.
+Proof. exact buffer_pack_roundtrip. Qed.
+
+(* return path of a host function handing data back (reads, runtime result r = f(vectors read),
+   allocate_buffer(r), buffer.0 to WASM), in every reachable table state: out-of-range pair =>
+   MemoryAccessError, table unchanged; otherwise TooManyBuffers with the table unchanged when max buffers
+   are live, else the returned value is (fresh id = next id, len = |r|), the table is the one reached by
+   the history extended with this allocation, and the id names a live buffer holding exactly r *)
+Theorem C47_host_call_result_is_live_buffer : forall max ops st m pairs f,
+  bexec (bufs_new max) ops = Some st -> Forall u32_pair pairs ->
+  (Exists (out_of_mem m) pairs /\ host_call st m pairs f = (Err MemoryAccessError, st))
+  \/ (Forall (in_mem m) pairs /\
+      let r := f (map (fun a => slice m (fst a) (fst a + snd a)) pairs) in
+      N.of_nat (List.length r) <= U32_MAX -> bnext st < U32_MAX ->
+      if bmax st <=? N.of_nat (List.length (btab st))
+      then host_call st m pairs f = (Err TooManyBuffers, st)
+      else exists st',
+        host_call st m pairs f = (Ok (buffer_pack (bnext st) (N.of_nat (List.length r))), st')
+        /\ bexec (bufs_new max) (ops ++ [BAlloc r]) = Some st'
+        /\ im_find (bnext st) (btab st') = Some r
+        /\ bnext st' = bnext st + 1).
+Proof. exact host_call_result_is_live_buffer. Qed.
+
+(* what a WASM program does with the result: buffer_consume(Buffer::id(v), dest) writes exactly the
+   runtime's result r to [dest, dest+|r|) (|r| = Buffer::len(v)) and the id is dead afterwards, or fails
+   with MemoryAccessError leaving the memory unchanged *)
+Theorem C47_call_then_consume_exact_or_error : forall max ops st m pairs f dest,
+  bexec (bufs_new max) ops = Some st -> Forall u32_pair pairs -> Forall (in_mem m) pairs ->
+  dest <= U32_MAX ->
+  let r := f (map (fun a => slice m (fst a) (fst a + snd a)) pairs) in
+  N.of_nat (List.length r) <= U32_MAX -> bnext st < U32_MAX ->
+  N.of_nat (List.length (btab st)) < bmax st ->
+  let v := buffer_pack (bnext st) (N.of_nat (List.length r)) in
+  buffer_id v = bnext st /\ buffer_len v = N.of_nat (List.length r) /\
+  ((dest + N.of_nat (List.length r) <= msize m /\
+    exists st'' m', call_then_consume st m pairs f dest = (Ok v, st'', m')
+                    /\ writes_exactly m m' dest r /\ im_find (bnext st) (btab st'') = None)
+   \/ (msize m < dest + N.of_nat (List.length r) /\
+       exists st'', call_then_consume st m pairs f dest = (Err MemoryAccessError, st'', m))).
+Proof. exact call_then_consume_exact_or_error. Qed.
+
 (* the statement depends on the 64-bit target: with a 32-bit usize and overflow checks the same code
    panics on ptr = 1, len = u32::MAX in a 1-byte memory (not a finding: no 32-bit node target) *)
 Theorem C47_usize32_overflow_panics :
@@ -110,6 +160,25 @@ Definition host_fn_ok (f : host_fn) : bool := if hf_cfg_test f then test_fn_ok f
    signature (hf_pairs_matched), and never touches the memory object *)
 Theorem C47_all_host_fns_use_checked_helpers : forallb host_fn_ok c47_host_fns = true.
 Proof. vm_compute. reflexivity. Qed.
+
+(* return path, wasmi.rs: a native function returning an i64 to WASM returns `buffer.0` of the Buffer
+   produced by its single runtime call and writes nothing into the memory; the only non-test function
+   that writes into the memory is consume_buffer *)
+Theorem C47_results_only_through_buffers :
+  forallb (fun f => hf_cfg_test f || (if hf_returns_u64 f then hf_result_is_buffer f && (hf_writes f =? 0) else true))
+          c47_host_fns = true
+  /\ map hf_name (filter (fun f => negb (hf_cfg_test f) && negb (hf_writes f =? 0)) c47_host_fns)
+     = ["consume_buffer"]%string
+  /\ List.length (filter (fun f => hf_returns_u64 f && negb (hf_cfg_test f)) c47_host_fns) = 30%nat.
+Proof. vm_compute. repeat split; reflexivity. Qed.
+
+(* return path, scrypto_runtime.rs: every method returning a Buffer obtains it from exactly one
+   `self.allocate_buffer(..)` call and allocate_buffer is the only function constructing a Buffer *)
+Theorem C47_runtime_buffers_only_from_allocate :
+  forallb (fun p => snd p =? 1) c47_runtime_buffer_fns = true
+  /\ c47_runtime_buffer_ctor_sites = ["allocate_buffer"]%string
+  /\ List.length c47_runtime_buffer_fns = 30%nat.
+Proof. vm_compute. repeat split; reflexivity. Qed.
 
 (* every Func::wrap closure only forwards (caller, params...) to a native function of the table,
    and every linker item is such a closure *)
@@ -157,6 +226,12 @@ Print Assumptions C47_buffer_unknown_id.
 Print Assumptions C47_buffer_roundtrip.
 Print Assumptions C47_reachable_buffers_u32.
 Print Assumptions C47_buffer_count_bounded.
+Print Assumptions C47_buffer_table_refines_spec.
+Print Assumptions C47_buffer_pack_roundtrip.
+Print Assumptions C47_host_call_result_is_live_buffer.
+Print Assumptions C47_call_then_consume_exact_or_error.
+Print Assumptions C47_results_only_through_buffers.
+Print Assumptions C47_runtime_buffers_only_from_allocate.
 Print Assumptions C47_usize32_overflow_panics.
 Print Assumptions C47_all_host_fns_use_checked_helpers.
 Print Assumptions C47_closures_only_forward.
